@@ -72,6 +72,12 @@ theorem run_append (cfg : Cfg) (st : State) (a b : List Op) :
   | nil => rfl
   | cons x xs ih => exact ih _
 
+theorem step_msg_busy (cfg : Cfg) (st : State) (c : Nat) (m : Msg) (hb : isBusy st c = true) :
+    step cfg st (.msg c m) = (st, []) := by simp [step, hb]
+
+theorem step_msg_not_busy (cfg : Cfg) (st : State) (c : Nat) (m : Msg) (hb : ¬ isBusy st c = true) :
+    step cfg st (.msg c m) = doMsg cfg st c m := by simp [step, hb]
+
 theorem run_session_origin (cfg : Cfg) (ops : List Op) (st : State) (sid : Nat)
     (h : sid ∈ sids (run cfg st ops)) :
     sid ∈ sids st ∨ ∃ pre c t post, ops = pre ++ Op.msg c (.hello (.token t)) :: post ∧
@@ -130,7 +136,9 @@ theorem C18_nothing_before_hello (cfg : Cfg) (st : State) (c : Nat) (m : Msg)
     (hc : Unauth st c) (hm : m.isHello = false) :
     (step cfg st (.msg c m)).1 = st ∧
     ∀ p ∈ (step cfg st (.msg c m)).2, p.1 = c ∧ p.2.isErr = true := by
-  simp only [step]
+  by_cases hb : isBusy st c = true
+  · rw [step_msg_busy cfg st c m hb]; simp
+  rw [step_msg_not_busy cfg st c m hb]
   unfold doMsg
   cases hf : findConn st c with
   | none => simp
@@ -148,7 +156,9 @@ theorem C18_refused_hello_no_effect (cfg : Cfg) (st : State) (c : Nat) (t : Tok)
     (hc : Unauth st c) (e : TokErr) (hp : parseToken cfg st.now t = some e) :
     (step cfg st (.msg c (.hello (.token t)))).1 = st ∧
     ∀ p ∈ (step cfg st (.msg c (.hello (.token t)))).2, p.1 = c ∧ p.2.isErr = true := by
-  simp only [step]
+  by_cases hb : isBusy st c = true
+  · rw [step_msg_busy cfg st c _ hb]; simp
+  rw [step_msg_not_busy cfg st c _ hb]
   unfold doMsg
   cases hf : findConn st c with
   | none => simp
@@ -243,9 +253,9 @@ theorem C18_cleanup_after_end (cfg : Cfg) (pre mid post : List Op) (sid : Nat)
 /-- Sessions do end: bye removes the session of the connection … -/
 theorem C18_bye_ends_session (cfg : Cfg) (st : State) (c : Nat) (x : Conn) (s : Sess)
     (hx : findConn st c = some x) (ho : x.isOpen = true) (hs : x.sess = some s.sid)
-    (hf : findSess st s.sid = some s) :
+    (hf : findSess st s.sid = some s) (hb : isBusy st c = false) :
     s.sid ∉ sids (step cfg st (.msg c .bye)).1 := by
-  simp only [step]
+  rw [step_msg_not_busy cfg st c _ (by simp [hb])]
   unfold doMsg
   simp only [hx, ho, Bool.not_true, Bool.false_eq_true, if_false, Msg.isInvalid, Bool.and_false, hs,
     Option.bind_some, hf, doSessionMsg]
@@ -369,8 +379,11 @@ theorem C18_delete_owner_only (cfg : Cfg) (st : State) (hinv : Inv st) (c : Nat)
         o ∈ (step cfg st (.msg c (delMsg isPub o.id))).1.clients ∧
         (o ∈ st.mcuOpen → o ∈ (step cfg st (.msg c (delMsg isPub o.id))).1.mcuOpen) ∧
         ∀ p ∈ (step cfg st (.msg c (delMsg isPub o.id))).2, p.2.isErr = true) := by
+  by_cases hb : isBusy st c = true
+  · rw [step_msg_busy cfg st c _ hb]; simp [ho]
+  rw [step_msg_not_busy cfg st c _ hb]
   cases isPub <;>
-  ( simp only [step, delMsg, Bool.false_eq_true, if_false, if_true]
+  ( simp only [delMsg, Bool.false_eq_true, if_false, if_true]
     unfold doMsg
     cases hf : findConn st c with
     | none => simp [ho]
@@ -442,5 +455,51 @@ theorem C18_created_owned (cfg : Cfg) (st : State) (c : Nat) (m : Msg) (c' id : 
       (⟨id, b, sid⟩ : Obj) ∈ (step cfg st (.msg c m)).1.clients ∧
       (⟨id, b, sid⟩ : Obj) ∈ (step cfg st (.msg c m)).1.mcuOpen :=
   created_owned cfg st c m c' id h
+
+/-! ## 5. The media server answers late
+
+A `create-publisher` / `create-subscriber` is blocked in the media server while
+other connections go on; the session may be taken over (resume) and ended
+before the answer arrives.  `C18_cleanup`, `C18_mcu_loss` and
+`C18_delete_owner_only` above already quantify over such histories (`release`
+is an ordinary op).  Spelled out: -/
+
+/-- The answer for a session that has ended leaves no trace: nothing new
+resolves, nothing new is open. -/
+theorem C18_late_answer_after_end (st : State) (c : Nat) (o : Outcome) (p : Pend)
+    (hp : st.pending.find? (·.conn == c) = some p) (hdead : p.sid ∉ sids st) :
+    (doRelease st c o).1.clients = st.clients ∧ (doRelease st c o).1.mcuOpen = st.mcuOpen := by
+  have hf : findSess st p.sid = none := by
+    unfold findSess
+    rw [List.find?_eq_none]
+    intro s hs heq
+    exact hdead (List.mem_map.mpr ⟨s, hs, by simpa using heq⟩)
+  have hf' : findSess { st with pending := st.pending.filter (fun q => !(q.conn == c)) } p.sid = none := hf
+  unfold doRelease finishLate
+  rw [hp]
+  simp only [lateStoreGuard_eq]
+  cases o <;> simp [finishLateWith, hf']
+
+/-- The history found on the code before the repair (session 1 creates a
+publisher, the media server is slow, connection 1 resumes the session and says
+bye, then the media server answers): with the guard nothing is left … -/
+def lateOps : List Op :=
+  [.connect 0, .msg 0 (.hello (.token demoTok)), .msg 0 (.createPub .late),
+   .connect 1, .msg 1 (.hello (.resume (some 1))), .msg 1 .bye, .release 0 .ok]
+
+example : sids (run demoCfg {} lateOps) = [] ∧ (run demoCfg {} lateOps).clients = [] ∧
+    (run demoCfg {} lateOps).mcuOpen = [] ∧ (run demoCfg {} lateOps).nextObj = 2 := by decide
+
+/-- … and without it (`finishLateWith false`, the code as it was) the publisher of
+the ended session 1 resolves and stays open: the statement was violated. -/
+theorem C18_unguarded_late_create_orphans :
+    let st := run demoCfg {} (lateOps.take 6)
+    sids st = [] ∧
+    (finishLateWith false { st with pending := [] } ⟨0, 1, true⟩ .ok).1.clients = [⟨1, true, 1⟩] ∧
+    (finishLateWith false { st with pending := [] } ⟨0, 1, true⟩ .ok).1.mcuOpen = [⟨1, true, 1⟩] := by decide
+
+/-- While the session lives, a late answer is an ordinary creation. -/
+example : (run demoCfg {} [.connect 0, .msg 0 (.hello (.token demoTok)), .msg 0 (.createSub .late),
+      .msg 0 .bye, .sleep 5000000000, .release 0 .ok]).clients = [⟨1, false, 1⟩] := by decide
 
 end SigModel.Proxy
